@@ -747,11 +747,18 @@ func (r *Ref) cond(n *node, c *actx, out *[]byte) {
 			if ps[0].isChar {
 				undef("~[ with a character parameter")
 			}
+			if ps[0].n < 0 {
+				undef("~[ with a negative parameter")
+			}
 			idx = big.NewInt(int64(ps[0].n))
 		} else {
 			v := c.next("~[")
 			if v.Kind != 'i' {
 				undef("~[ needs an integer")
+			}
+			if !v.I.IsInt64() {
+				// slip asks for a fixnum; whether a bignum index must select "nothing" is not worth a dispute
+				undef("~[ with a bignum index")
 			}
 			idx = v.I
 		}
@@ -859,23 +866,36 @@ func convertCase(s string, colon, at bool) string {
 }
 
 // capitalize upcases the first character of every word (a word is a run of
-// letters and digits), or of the first word only.
+// letters and digits), or of the first word only. A word that starts with a
+// digit and goes on with letters ("1st") is left undefined: the definitions do
+// not say what a word is there.
 func capitalize(s string, firstOnly bool) string {
-	var b strings.Builder
-	inWord := false
+	rs := []rune(s)
+	isWord := func(c rune) bool { return unicode.IsLetter(c) || unicode.IsDigit(c) }
 	done := false
-	for _, c := range s {
-		isWord := unicode.IsLetter(c) || unicode.IsDigit(c)
-		if isWord && !inWord && !(firstOnly && done) {
-			if firstOnly && !unicode.IsLetter(c) {
-				undef("~@( with a first word that does not start with a letter")
-			}
-			b.WriteRune(unicode.ToUpper(c))
-			done = true
-		} else {
-			b.WriteRune(c)
+	for i := 0; i < len(rs); {
+		if !isWord(rs[i]) {
+			i++
+			continue
 		}
-		inWord = isWord
+		j := i
+		hasLetter := false
+		for j < len(rs) && isWord(rs[j]) {
+			hasLetter = hasLetter || unicode.IsLetter(rs[j])
+			j++
+		}
+		if !(firstOnly && done) {
+			if !unicode.IsLetter(rs[i]) && hasLetter {
+				undef("case conversion of a word that starts with a digit")
+			}
+			if hasLetter || !firstOnly {
+				rs[i] = unicode.ToUpper(rs[i])
+			}
+			if hasLetter {
+				done = true
+			}
+		}
+		i = j
 	}
-	return b.String()
+	return string(rs)
 }
